@@ -189,6 +189,70 @@ func c29Run(r *simkit.Run) {
 	}
 }
 
+// c29Hostile overwrites one 8-byte length field with a value chosen to hurt: the top of the uint64 range (where
+// offset+length wraps), the sign boundaries of int64/int32, the refusal bound of the readers and one more than the
+// bytes that are left. fields are the offsets of the length fields of the encoding; one draw in four takes any offset.
+func c29Hostile(r *simkit.Run, data []byte, fields []int) ([]byte, string) {
+	if len(data) < 8 {
+		return nil, ""
+	}
+
+	off := 0
+
+	switch {
+	case len(fields) > 0 && !r.Chance(1, 4):
+		off = fields[r.Choose(len(fields))]
+	default:
+		off = r.Choose(len(data) - 7)
+	}
+
+	if off+8 > len(data) {
+		off = len(data) - 8
+	}
+
+	left := uint64(len(data) - off - 8)
+
+	var v uint64
+
+	switch r.Choose(8) {
+	case 0, 1, 2:
+		v = ^uint64(0) - uint64(r.Choose(17)) // 2^64-1 .. 2^64-17
+	case 3:
+		v = uint64(1)<<63 + uint64(r.Choose(3)) - 1
+	case 4:
+		v = uint64(1)<<uint(31+r.Choose(3)) + uint64(r.Choose(3)) - 1
+	case 5:
+		v = left + 1 + uint64(r.Choose(8))
+	case 6:
+		v = 32766 + uint64(r.Choose(4))
+	default:
+		v = ^uint64(0) - left - uint64(r.Choose(17)) // wraps when the offset or what is left is added
+	}
+
+	mut := append([]byte(nil), data...)
+	binary.BigEndian.PutUint64(mut[off:], v)
+	r.Fault("hostile_length_field")
+
+	return mut, fmt.Sprintf("length field at offset %d set to %#x", off, v)
+}
+
+// c29Fields gives the offsets of the count and of every item length of the encoding of list
+func c29Fields(list [][]byte) []int {
+	fields := []int{0}
+	off := 8
+
+	for i, it := range list {
+		if i >= 64 {
+			break
+		}
+
+		fields = append(fields, off)
+		off += 8 + len(it)
+	}
+
+	return fields
+}
+
 func c29Buffer(r *simkit.Run, list [][]byte, enc []byte, sizeClass string) {
 	extra := make([]byte, r.Choose(5))
 	input := append(append([]byte(nil), enc...), extra...)
@@ -258,13 +322,20 @@ func c29Buffer(r *simkit.Run, list [][]byte, enc []byte, sizeClass string) {
 			r.Fault("byte_flip")
 			judge(fmt.Sprintf("bit flipped at offset %d", pos), mut, false)
 		}
+
+		// length fields set by an adversary
+		for i := 0; i < 1+r.Choose(4); i++ {
+			if mut, what := c29Hostile(r, input, c29Fields(list)); mut != nil {
+				judge(what, mut, false)
+			}
+		}
 	})
 
 	r.Sched(simkit.SchedOpts{MaxSteps: 2000000})
 }
 
 func c29Stream(r *simkit.Run, list [][]byte, enc []byte, sizeClass string) {
-	kind := r.Draw("stream_fault", 0, 3) // 0 clean, 1 truncated, 2 reader error, 3 flip
+	kind := r.Draw("stream_fault", 0, 4) // 0 clean, 1 truncated, 2 reader error, 3 flip, 4 hostile length field
 
 	data := append([]byte(nil), enc...)
 	clean := kind == 0
@@ -322,6 +393,12 @@ func c29Stream(r *simkit.Run, list [][]byte, enc []byte, sizeClass string) {
 
 			data[pos] ^= byte(1 << uint(r.Choose(8)))
 			r.Fault("byte_flip")
+		} else {
+			clean = true
+		}
+	case 4:
+		if mut, _ := c29Hostile(r, data, c29Fields(list)); mut != nil {
+			data = mut
 		} else {
 			clean = true
 		}
@@ -411,9 +488,15 @@ func c29Frame(r *simkit.Run) {
 	}
 
 	data := append([]byte(nil), buf.Bytes()...)
-	kind := r.Draw("stream_fault", 0, 2) // 0 clean, 1 truncated, 2 flip
+	kind := r.Draw("stream_fault", 0, 3) // 0 clean, 1 truncated, 2 flip, 3 hostile length field
 
 	switch kind {
+	case 3:
+		if mut, _ := c29Hostile(r, data, nil); mut != nil {
+			data = mut
+		} else {
+			kind = 0
+		}
 	case 1:
 		cut := r.Choose(len(data))
 		if r.Chance(1, 2) { // around the lengthed bodies at the end of the frame
@@ -513,7 +596,7 @@ func init() {
 		Run:         c29Run,
 		Real:        []string{"util.WriteLengthedSlice/NewLengthedBytesSlice", "util.ReadLengthedBytesSlice", "util.ReadLengthedSlice/ReadLengthed/ReadLength/EnsureRead (helper goroutine per read)", "util.BytesFrameWriter/BytesFrameReader"},
 		Stub:        []string{"stream: simReader (tape-chosen chunk sizes incl. 1-byte and empty reads, EOF with or after the last chunk, early EOF, error at a drawn offset)"},
-		Rule:        "each run draws a list (0 items, a few, dozens, around 32767, up to 40000; items 0..64 KiB, total capped at 1 MiB) and a mode: buffer API (clean input with trailing bytes, EVERY truncation of encodings up to 4 KiB, bit flips biased to length fields), stream API (clean / truncated / reader error / bit flip, chunking 1..70000 bytes), or the frame writer/reader. One condition judges clean, truncated and flipped input alike: an error, or a result whose re-encoding is byte-identical to what was consumed; a clean input must read back identically; a panic in the reading task is a violation. distinct = event-log hash",
+		Rule:        "each run draws a list (0 items, a few, dozens, around 32767, up to 40000; items 0..64 KiB, total capped at 1 MiB) and a mode: buffer API (clean input with trailing bytes, EVERY truncation of encodings up to 4 KiB, bit flips biased to length fields, length fields overwritten with hostile values: the top of the uint64 range where offset+length wraps, int64/int32 sign boundaries, the refusal bound, one past what is left), stream API (clean / truncated / reader error / bit flip / hostile length field, chunking 1..70000 bytes), or the frame writer/reader. One condition judges clean, truncated and flipped input alike: an error, or a result whose re-encoding is byte-identical to what was consumed; a clean input must read back identically; a panic in the reading task is a violation. distinct = event-log hash",
 		Assumptions: []string{"an empty item may read back as nil", "when a flipped length field announces more than 4 MiB the simulated stream delivers all remaining bytes in one read, so that the per-read allocation of EnsureRead stays within the worker's memory limit"},
 	})
 }
